@@ -66,6 +66,68 @@ theorem gfin_newer : ∀ (l : List AOp) (g : G) (r : Root), (gfin L g l).newer r
         rcases h1 with h1 | h1 <;> cases h1
     · exact Or.inr ⟨off, b, List.mem_cons_of_mem _ hm⟩
 
+theorem gnext_recs_sub (L : Layout) (g : G) (a : AOp) : ∀ r ∈ g.recs, r ∈ (gnext L g a).recs := by
+  intro r hr
+  cases a with
+  | advance rec => exact List.mem_append_left _ hr
+  | _ => exact hr
+
+theorem gfin_recs_sub (L : Layout) : ∀ (l : List AOp) (g : G), ∀ r ∈ g.recs, r ∈ (gfin L g l).recs := by
+  intro l
+  induction l with
+  | nil => intro g r hr; exact hr
+  | cons a as ih =>
+    intro g r hr
+    have := ih (gnext L g a) r (gnext_recs_sub L g a r hr)
+    simpa [gfin] using this
+
+/-- an item whose `advance` is the only one in the stream is either recorded or still beyond the
+write frontier -/
+theorem gfin_rec_or (L : Layout) (rec : Rec) : ∀ (l : List AOp) (g : G),
+    (∀ r, AOp.advance r ∈ l → r = rec) → (rec ∈ g.recs ∨ g.free ≤ rec.off) →
+    rec ∈ (gfin L g l).recs ∨ (gfin L g l).free ≤ rec.off := by
+  intro l
+  induction l with
+  | nil => intro g _ h; exact h
+  | cons a as ih =>
+    intro g hadv h
+    have hrest : ∀ r, AOp.advance r ∈ as → r = rec := fun r hr => hadv r (List.mem_cons_of_mem _ hr)
+    have step : rec ∈ (gnext L g a).recs ∨ (gnext L g a).free ≤ rec.off := by
+      cases a with
+      | advance r =>
+        have := hadv r List.mem_cons_self
+        subst this
+        exact Or.inl (List.mem_append_right _ (List.mem_singleton.mpr rfl))
+      | data _ _ => exact h
+      | rootw _ _ _ => exact h
+      | sync _ => exact h
+      | noop _ => exact h
+      | syncCommit _ => exact h
+    have := ih (gnext L g a) hrest step
+    simpa [gfin] using this
+
+theorem conf_free_mono {L : Layout} {ck : Checksum} : ∀ (l : List AOp) (g : G) (d : Disk), Conf L ck g d l →
+    g.free ≤ (gfin L g l).free := by
+  intro l
+  induction l with
+  | nil => intro g d _; exact Nat.le_refl _
+  | cons a as ih =>
+    intro g d h
+    have h1 : g.free ≤ (gnext L g a).free := by
+      cases a with
+      | advance rec =>
+        have := h.1.1
+        show g.free ≤ rec.end_
+        unfold Rec.end_; omega
+      | data _ _ => exact Nat.le_refl _
+      | rootw _ _ _ => exact Nat.le_refl _
+      | sync _ => exact Nat.le_refl _
+      | noop _ => exact Nat.le_refl _
+      | syncCommit _ => exact Nat.le_refl _
+    have := ih _ _ h.2
+    have e : gfin L g (a :: as) = gfin L (gnext L g a) as := by simp [gfin]
+    rw [e]; omega
+
 /-! ## streams of data ops (everything a failing append issues) -/
 
 def dataA : Op → AOp
@@ -85,10 +147,10 @@ theorem erase_dataA (ops : List Op) : eraseAll (ops.map dataA) = ops := by
 
 theorem gfin_dataA (L : Layout) : ∀ (ops : List Op) (g : G),
     (gfin L g (ops.map dataA)).next = g.next ∧ (gfin L g (ops.map dataA)).gen = g.gen ∧
-    (gfin L g (ops.map dataA)).free = g.free := by
+    (gfin L g (ops.map dataA)).free = g.free ∧ (gfin L g (ops.map dataA)).recs = g.recs := by
   intro ops
   induction ops with
-  | nil => intro g; exact ⟨rfl, rfl, rfl⟩
+  | nil => intro g; exact ⟨rfl, rfl, rfl, rfl⟩
   | cons o os ih =>
     intro g
     have h := ih (gnext L g (dataA o))
@@ -118,6 +180,11 @@ theorem conf_dataA : ∀ (ops : List Op) (g : G) (d : Disk),
 theorem noSC_dataA (ops : List Op) : NoSC (ops.map dataA) := by
   intro a ha r he
   obtain ⟨o, _, rfl⟩ := List.mem_map.mp ha
+  cases o <;> cases he
+
+theorem noAdv_dataA (ops : List Op) (r : Rec) : AOp.advance r ∉ ops.map dataA := by
+  intro ha
+  obtain ⟨o, _, he⟩ := List.mem_map.mp ha
   cases o <;> cases he
 
 theorem noRootw_dataA (ops : List Op) (r : Root) (off : Nat) (b : Bytes) :
@@ -179,12 +246,15 @@ theorem noRootw_growA (L : Layout) (w : Writer) (e : Nat) (r : Root) (off : Nat)
 /-- ghost state after a complete append -/
 theorem gfin_appA (L : Layout) (w : Writer) (b : Bytes) (refs : List Nat) (g : G) :
     (gfin L g (appA L w b refs)).next = g.next ∧ (gfin L g (appA L w b refs)).gen = g.gen ∧
-    (gfin L g (appA L w b refs)).free = w.root.free.toNat + 4 + b.length := by
+    (gfin L g (appA L w b refs)).free = w.root.free.toNat + 4 + b.length ∧
+    (gfin L g (appA L w b refs)).recs = g.recs ++ [⟨w.root.free.toNat, b, refs⟩] := by
   unfold appA
   rw [gfin_append]
-  obtain ⟨h1, h2, _, _⟩ := gfin_growA L w (w.root.free.toNat + 4 + b.length) g
-  refine ⟨h1, h2, ?_⟩
-  simp [gfin, gnext, Rec.end_]
+  obtain ⟨h1, h2, _, h4⟩ := gfin_growA L w (w.root.free.toNat + 4 + b.length) g
+  refine ⟨h1, h2, ?_, ?_⟩
+  · simp [gfin, gnext, Rec.end_]
+  · simp only [gfin, List.foldl_cons, List.foldl_nil, gnext]
+    rw [show List.foldl (gnext L) g (growA L w (w.root.free.toNat + 4 + b.length)) = gfin L g (growA L w (w.root.free.toNat + 4 + b.length)) from rfl, h4]
 
 theorem conf_appA (hL : L.OK) {w : Writer} {d : Disk} {g : G} (q : GQ L ck d g) (hl : Link w g)
     (b : Bytes) (refs : List Nat) : Conf L ck g d (appA L w b refs) := by
@@ -213,6 +283,21 @@ theorem noSC_appA (L : Layout) (w : Writer) (b : Bytes) (refs : List Nat) : NoSC
   · exact noSC_growA L w _ a h r he
   · simp only [List.mem_cons, List.not_mem_nil, or_false] at h
     rcases h with rfl | rfl | rfl <;> cases he
+
+theorem adv_appA (L : Layout) (w : Writer) (b : Bytes) (refs : List Nat) (r : Rec)
+    (h : AOp.advance r ∈ appA L w b refs) : r = ⟨w.root.free.toNat, b, refs⟩ := by
+  unfold appA at h
+  rcases List.mem_append.mp h with h | h
+  · unfold growA at h
+    split at h
+    · cases h
+    · simp only [List.mem_cons, List.not_mem_nil, or_false] at h
+      rcases h with h | h <;> cases h
+  · simp only [List.mem_cons, List.not_mem_nil, or_false] at h
+    rcases h with h | h | h
+    · cases h
+    · cases h
+    · cases h; rfl
 
 theorem noRootw_appA (L : Layout) (w : Writer) (b : Bytes) (refs : List Nat) (r : Root) (off : Nat)
     (x : Bytes) : AOp.rootw r off x ∉ appA L w b refs := by
